@@ -19,6 +19,7 @@ var Worlds = map[string]core.World{
 	"C04": liveWorld{prop: "C04"},
 	"C06": liveWorld{prop: "C06"},
 	"C14": liveWorld{prop: "C14"},
+	"C19": lineWorld{},
 }
 
 // SelfTest validates the reference models against the specification's own examples and
